@@ -31,9 +31,9 @@ DONE.update({
  "C10": ("psim", "fault_enumeration", "bounded-exhaustive enumeration of peer frame sequences from every slot state against a real endpoint and a scripted raw peer, reference-decoded replies",
          "every frame sequence up to length L over the alphabet (all opcodes x ids {0, victim, unknown} + bystander id + overrun) and terminal invalid messages, from each of 7 slot states, binds on and off; reply rules, bystander integrity, liveness, no panic",
          "replies asserted only where PROTOCOL.md/the statement is explicit; hook used for preconditions and 'flow untouched'"),
- "C18": ("enum", "exploration", "bounded-exhaustive enumeration of SOCKS4/4a/5 requests, replies and UDP headers (all truncations, two delivery modes) against an independent RFC 1928 / SOCKS4a reference",
-         "exhaustive products over versions, commands, address types, every domain length 0..255, ports, truncation points and trailers for the readers; all reply codes x address corners for the writers; UDP relay round trip through a reference client parser",
-         "address/payload bytes outside the listed fillings are not enumerated; lenient where the RFC leaves behaviour open (listed in evidence assumptions)"),
+ "C18": ("enum+e2e", "exploration", "bounded-exhaustive enumeration of SOCKS4/4a/5 requests, replies and UDP headers (all truncations, two delivery modes) against an independent RFC 1928 / SOCKS4a reference; plus a complete matrix of conversations with the real SOCKS listener of the real client on loopback (part C18W), replies judged byte-exactly",
+         "exhaustive products over versions, commands, address types, every domain length 0..255, ports, truncation points and trailers for the readers; all reply codes x address corners for the writers; UDP relay round trip through a reference client parser; wire level: SOCKS4/4a command codes x user-id x address form x reachable/refusing target, SOCKS5 method lists x CMD x ATYP x target, wrong versions, every truncation point followed by a half-close",
+         "wire-level part: schedules not owned (real runtime, one execution per matrix point, deadline hits re-run in isolation); address/payload bytes outside the listed fillings are not enumerated; lenient where the RFC leaves behaviour open (listed in evidence assumptions)"),
  "C20": ("enum", "exploration", "exhaustive enumeration of operation sequences up to depth L from several start states against a Vec<u8> model, every accessor compared after every operation",
          "all operation histories over the LongChain alphabet (arguments at, inside and one past every boundary) up to depth L from the empty chain and three pre-built chains; CowBytes: all strings up to length 4/5 over a 3-letter alphabet through every accessor, comparison and hash in both variants",
          "bounded depth; nothing sampled (the 'random longer ones' of the quantifier are not covered)"),
@@ -66,7 +66,7 @@ DONE.update({
  "C14": ("enum", "exploration", "bounded-exhaustive enumeration of upgrade requests x server configurations against a reference validity predicate, in-process, with a backend, and over the wire",
          "all requests within <= 4 (quick) / 5 (thorough + complete core product) simultaneous deviations from the valid upgrade over method, path, six headers, PSK variants x {PSK on/off} x {obfs on/off}; 101 iff valid with correct accept hash; every other /ws request identical to the unknown-path response; /health,/version under obfs",
          "HTTP/1.1 only; header values outside the variant tables not enumerated"),
- "C17": ("enum", "exploration", "complete configuration matrix of real TLS handshakes over an in-memory duplex with harness-generated chains, plus reload histories",
+ "C17": ("enum", "exploration", "complete configuration matrix of real TLS handshakes over an in-memory duplex with harness-generated chains, plus reload histories (fresh clients, and returning clients that reuse one ClientConfig so that sessions are resumed)",
          "server cert {trusted leaf, other-CA leaf, self-signed, expired} x names x skip-verify x roots x client cert {none, client-CA, other-CA, self-signed} x server client-CA {none,set} x constructors, each followed by an echo both ways; probe client observing CertificateRequest; reload histories; client-name precedence",
          "rustls backend only; depth-1 chains"),
 })
